@@ -167,7 +167,7 @@ def r2_arity(ck, w):
             while tail.get('k') == 'block' and 'e' in tail:
                 tail = tail['e']
             n_out = None
-            if tail.get('k') == 'call' and (callee(tail) or '').endswith('into_vec') or (tail.get('k') == 'call' and 'box_new' in (callee(tail) or '')):
+            if tail.get('k') == 'call' and ('vec' in (tail.get('x') or []) or (callee(tail) or '').endswith('into_vec') or 'box_new' in (callee(tail) or '')):
                 arrs = [x for x in walk(tail) if x.get('k') == 'array']
                 if arrs:
                     n_out = len(arrs[0].get('es', []))
